@@ -166,3 +166,24 @@ fn tzif_v2_mixed_versions() {
         assert!(tz.transitions.len() == 1 && tz.local_time_types.len() == 1);
     }
 }
+fn stub_small(_footer: &[u8], _ext: bool) -> Result<Option<TransitionRule>, TimeZoneError> {
+    if kani::any() { Ok(None) } else { Err(TimeZoneError::InvalidTzFile("stub")) }
+}
+#[kani::proof]
+#[kani::unwind(50)]
+#[kani::stub(TransitionRule::from_tz_string, stub_from_tz_string)]
+fn tzif_v2_try_a() {
+    let bytes = v2_file(b'2', b'2');
+    if let Ok(tz) = TimeZone::from_tzif(&bytes) {
+        assert!(tz.transitions.len() == 1 && tz.local_time_types.len() == 1);
+    }
+}
+#[kani::proof]
+#[kani::unwind(50)]
+#[kani::stub(TransitionRule::from_tz_string, stub_small)]
+fn tzif_v2_try_b() {
+    let bytes = v2_file(b'2', b'2');
+    if let Ok(tz) = TimeZone::from_tzif(&bytes) {
+        assert!(tz.transitions.len() == 1 && tz.local_time_types.len() == 1);
+    }
+}
